@@ -137,11 +137,13 @@ func runChild(timeout time.Duration, bin string, args ...string) childResult {
 	return r
 }
 
+var workerGoMaxProcs = "2"
+
 func gomaxprocs() string {
 	if s := os.Getenv("VERIF_GOMAXPROCS"); s != "" {
 		return s
 	}
-	return "2"
+	return workerGoMaxProcs
 }
 
 // crashKind classifies a worker exit that is not a regular result.
@@ -170,7 +172,7 @@ func raceSite(se string) string {
 	for _, l := range strings.Split(se, "\n") {
 		l = strings.TrimSpace(l)
 		if strings.HasPrefix(l, "github.com/elastic/go-structform") {
-			if i := strings.IndexByte(l, '('); i > 0 {
+			if i := strings.LastIndexByte(l, '('); i > 0 {
 				l = l[:i]
 			}
 			return strings.TrimPrefix(l, "github.com/elastic/go-structform")
@@ -183,7 +185,7 @@ func fatalSite(se string) string {
 	for _, l := range strings.Split(se, "\n") {
 		l = strings.TrimSpace(l)
 		if strings.HasPrefix(l, "github.com/elastic/go-structform") {
-			if i := strings.IndexByte(l, '('); i > 0 {
+			if i := strings.LastIndexByte(l, '('); i > 0 {
 				l = l[:i]
 			}
 			return strings.TrimPrefix(l, "github.com/elastic/go-structform")
@@ -273,6 +275,11 @@ func driverMain(args []string) int {
 	defer os.RemoveAll(tmpDir)
 
 	bin := selfPath(cfg.Race)
+	if cfg.GoMaxProcs != "" {
+		// one P: tasks share sync.Pool slots and other per-P state, as busy
+		// goroutines multiplexed on one thread would
+		workerGoMaxProcs = cfg.GoMaxProcs
+	}
 	fmt.Printf("vcheck property=%s tier=%s VERIF_SEED=%d engine=%s runs=%d workers=%d cap=%ds race=%v\n",
 		prop, tier, seed, cfg.EngineName, runs, nw, capS, cfg.Race)
 
